@@ -7,12 +7,13 @@
 #include "vh.h"
 
 #define NOW 1700000000L
-#define NOPS 29
+#define NOPS 31
 static const char *OPNAME[NOPS] = { "claim_del(exp)", "claim_del(nbf)", "claim_del(iss)", "claim_del(sub)", "claim_del(aud)", "claim_del(all)",
 	"claim_set!(exp=9999999999)", "claim_set!(nbf=0)", "claim_set!(iss=me)", "claim_set!(sub=s)", "claim_set!(aud=x)",
 	"header_del(alg)", "header_del(all)", "header_set!(alg=none)", "header_set!(alg=HS256)", "header_set!(alg=ES256)", "claim_set!(exp='str')", "noop",
 	"claim_get(exp as STR)", "claim_get(iss as INT, aud as BOOL)", "header_get(alg as INT, typ as BOOL)", "get(absent names)", "get(JSON whole, pretty)", "get(right types), jwt_get_alg",
-	"header_del(crit)", "header_set!(crit=[exp])", "header_del(typ), header_del(kid)", "header_set!(typ=x, kid=k, cty=c)", "header_set!(crit=7, jwk={}, x5c=[])" };
+	"header_del(crit)", "header_set!(crit=[exp])", "header_del(typ), header_del(kid)", "header_set!(typ=x, kid=k, cty=c)", "header_set!(crit=7, jwk={}, x5c=[])",
+	"claim_set!(exp=1000000000)", "claim_set!(iss=yo)" };
 
 static void apply_op(jwt_t *jwt, int op)
 {
@@ -54,6 +55,9 @@ static void apply_op(jwt_t *jwt, int op)
 		 jwt_set_SET_STR(&v, "cty", "c"); v.replace = 1; jwt_header_set(jwt, &v); break;
 	case 28: jwt_set_SET_INT(&v, "crit", 7); v.replace = 1; jwt_header_set(jwt, &v); jwt_set_SET_JSON(&v, "jwk", "{}"); v.replace = 1; jwt_header_set(jwt, &v);
 		 jwt_set_SET_JSON(&v, "x5c", "[]"); v.replace = 1; jwt_header_set(jwt, &v); break;
+	/* edits that keep the length of the serialised claims */
+	case 29: jwt_set_SET_INT(&v, "exp", 1000000000L); v.replace = 1; jwt_claim_set(jwt, &v); break;
+	case 30: jwt_set_SET_STR(&v, "iss", "yo"); v.replace = 1; jwt_claim_set(jwt, &v); break;
 	default: break;
 	}
 }
@@ -71,13 +75,14 @@ static vh_key_t KH, KE;
 static jwk_set_t *sets[2];
 static const jwk_item_t *IH[2], *IE[2];
 
-#define NTOK 23
+#define NTOK 29
 static char *TOK[NTOK];
 static int TOKKIND[NTOK];	/* 0 unsigned, 1 HS256, 2 ES256 */
 static const char *TOKNAME[NTOK] = { "hs:pass", "hs:expired", "hs:not-yet-valid", "hs:wrong-iss", "hs:missing-sub", "hs:wrong-aud", "hs:bad-signature",
 	"es:pass", "es:expired", "es:bad-signature", "none:pass", "none:expired", "none:not-yet-valid", "none:wrong-iss", "none:missing-sub", "none:wrong-aud",
 	"hs:no-time-claims", "hs:pass-with-crit-and-kid", "es:pass-with-crit-and-kid", "hs:wrong-iss-with-crit",
-	"hs:empty-payload", "none:empty-payload", "hs:only-unrelated-claim" };
+	"hs:empty-payload", "none:empty-payload", "hs:only-unrelated-claim",
+	"hs:big-pass", "hs:big-expired", "hs:big-wrong-iss(yo)", "none:70k-expired", "hs:big-expired-filler-last", "hs:4k-boundary-wrong-iss(yo)" };
 
 static void build_tokens(void)
 {
@@ -106,6 +111,25 @@ static void build_tokens(void)
 	TOK[20] = vh_ref_token(&KH, JWT_ALG_HS256, HH, "{}"); TOKKIND[20] = 1;
 	TOK[21] = vh_ref_token(NULL, JWT_ALG_NONE, HN, "{}"); TOKKIND[21] = 0;
 	TOK[22] = vh_ref_token(&KH, JWT_ALG_HS256, HH, "{\"name\":\"bob\"}"); TOKKIND[22] = 1;
+	/* large payloads: the checked claims lie beyond the first 1 / 4 / 64 KiB of the serialised claims (member names sort after "a"),
+	 * or before a large tail (filler "zz") */
+	{
+		static const struct { int kind; int n; const char *fname; const char *rest; } BIG[6] = {
+			{ 1, 5000, "a", "\"iss\":\"me\",\"sub\":\"s\",\"aud\":\"x\",\"exp\":1700000100,\"nbf\":1699999000" },
+			{ 1, 5000, "a", "\"iss\":\"me\",\"sub\":\"s\",\"aud\":\"x\",\"exp\":1699999999,\"nbf\":1699999000" },
+			{ 1, 5000, "a", "\"iss\":\"yo\",\"sub\":\"s\",\"aud\":\"x\",\"exp\":1700000100,\"nbf\":1699999000" },
+			{ 0, 70000, "a", "\"iss\":\"me\",\"sub\":\"s\",\"aud\":\"x\",\"exp\":1699999999,\"nbf\":1699999000" },
+			{ 1, 5000, "zz", "\"iss\":\"me\",\"sub\":\"s\",\"aud\":\"x\",\"exp\":1699999999,\"nbf\":1699999000" },
+			{ 1, 4050, "a", "\"aud\":\"x\",\"exp\":1700000100,\"iss\":\"yo\",\"nbf\":1699999000,\"sub\":\"s\"" } };
+		for (int i = 0; i < 6; i++) {
+			char *pl = malloc((size_t)BIG[i].n + 256), *fill = malloc((size_t)BIG[i].n + 1);
+			memset(fill, 'A', (size_t)BIG[i].n); fill[BIG[i].n] = 0;
+			sprintf(pl, "{\"%s\":\"%s\",%s}", BIG[i].fname, fill, BIG[i].rest);
+			TOK[23 + i] = BIG[i].kind ? vh_ref_token(&KH, JWT_ALG_HS256, HH, pl) : vh_ref_token(NULL, JWT_ALG_NONE, HN, pl);
+			TOKKIND[23 + i] = BIG[i].kind;
+			free(pl); free(fill);
+		}
+	}
 }
 
 /* policy bits: 1 exp on, 2 nbf on, 4 iss=me, 8 sub=s, 16 aud=x */
